@@ -82,6 +82,7 @@ inductive Err
   | notEnabled      -- harness-level: the timer thread cannot take this step now
   | keyError
   | attributeError  -- `self.link.…` on `None`
+  | blocked         -- harness-level: the thread waits for `_send_lock`, which is never released again
 deriving DecidableEq, Repr
 
 abbrev Dict := List (Pattern × Nat)
@@ -133,6 +134,8 @@ structure Cfg where
   closeEarly : Bool
   errorEarly : Bool
   openEarly : Bool
+  /-- `send_packet` releases `_send_lock` on every exit of the critical section (`try … finally`), not only on the normal one -/
+  releasesOnRaise : Bool
 
 /-- the current source, as extracted -/
 def srcCfg : Cfg where
@@ -150,6 +153,7 @@ def srcCfg : Cfg where
   closeEarly := Gen.C10.closeForgetsBeforeCallbacks
   errorEarly := Gen.C10.errorForgetsBeforeCallbacks
   openEarly := Gen.C10.openForgetsBeforeLink
+  releasesOnRaise := Gen.C10.sendLockReleasedInFinally
 
 /-- the code before the D10 repair: a resend transmits whenever a link is open, re-arms whenever the pattern is
 registered (by whichever timer), always with the default timeout; `close_link` drops the patterns but cancels nothing,
@@ -169,6 +173,7 @@ def liveCfg : Cfg where
   closeEarly := true
   errorEarly := true
   openEarly := true
+  releasesOnRaise := false
 
 /-- the current code with the `_cancel_answer_timers()` of `_link_error_cb` moved behind the application callbacks
 (kept for the counterexample: a reconnect + request from inside `connection_lost` loses its retry timer) -/
@@ -315,6 +320,66 @@ def stepReportingError (c : Cfg) (s : State) (e : Ev) : State :=
   if s1.log.length > s.log.length then stepT c (stepT c s1 .linkError) .linkErrorEnd else s1
 
 def init : State := {}
+
+/-! ## exceptional exits of the critical section and the send lock
+
+`link.send_packet(pk)` (the driver) and `self.packet_sent.call(pk)` (any subscriber) may raise any exception.  Both are the last
+two statements of the critical section, so the retry timer has been armed and the packet has been handed to the link (the model's
+`log` records the call of `link.send_packet`, whatever the driver then does) when the exception leaves `send_packet` towards the caller
+(the timer thread for a retry).  What happens to `_send_lock` then is `Cfg.releasesOnRaise` (from Gen: the lock is released in a
+`finally`).  `LState` adds the lock to the state; `lstep` is `step` plus: a raising variant of `send` / of a timer callback, and
+blocking: once the lock is held for ever, every step that has to take it (`send`, a timer callback, the set-point of `close_link`)
+never completes. -/
+
+structure LState where
+  st : State := {}
+  locked : Bool := false      -- `_send_lock` was left acquired by a critical section that raised
+  raised : Nat := 0           -- ghost: exceptions that reached callers of `send_packet`
+deriving DecidableEq, Repr
+
+inductive LEv
+  | ev (e : Ev)
+  | sendRaise (pk : Pk) (expected : Pattern) (timeout : Nat)   -- `send`, and the driver or a `packet_sent` subscriber raises
+  | runRaise (i : Nat)                                          -- the same inside the callback of timer `i`
+deriving DecidableEq, Repr
+
+def LEv.erase : LEv → Ev
+  | .ev e => e
+  | .sendRaise pk ex t => .send pk ex t
+  | .runRaise i => .run i
+
+def LEv.raises : LEv → Bool
+  | .ev _ => false
+  | _ => true
+
+/-- the step has to acquire `_send_lock` (evaluated for steps that are otherwise enabled) -/
+def takesLock (c : Cfg) (s : State) : Ev → Bool
+  | .send .. => true
+  | .run _ => true
+  | .closeSetpoint => c.closeSetpoint && s.link.isSome
+  | _ => false
+
+def lstep (c : Cfg) (ls : LState) (le : LEv) : Except Err LState :=
+  match step c ls.st le.erase with
+  | .error er => .error er          -- size check / timer thread not at its callback: before the lock is touched
+  | .ok s' =>
+    if ls.locked && takesLock c ls.st le.erase then .error .blocked
+    else if le.raises && s'.log.length > ls.st.log.length then
+      -- nothing is called (and nothing can raise) unless the packet is handed to the link
+      .ok { st := s', locked := !c.releasesOnRaise, raised := ls.raised + 1 }
+    else .ok { ls with st := s' }
+
+def lstepT (c : Cfg) (ls : LState) (le : LEv) : LState :=
+  match lstep c ls le with
+  | .ok ls' => ls'
+  | .error _ => ls
+
+def lrun (c : Cfg) (ls : LState) (evs : List LEv) : LState := evs.foldl (lstepT c) ls
+
+def linit : LState := {}
+
+/-- the current code with the `try … finally` of `send_packet` flattened (kept for the counterexample) -/
+def flatSendCfg : Cfg := { srcCfg with releasesOnRaise := false }
 
 /-- `needs_resending` as the drivers set it -/
 inductive DriverKind
